@@ -34,6 +34,7 @@ func runC17(c *mon.Ctx) {
 	c.Cases(func(i int, r *mon.Rand) {
 		c17Values(c, r.Fork(1))
 		c17Conflicts(c, r.Fork(2))
+		c17DirectTwins(c, r.Fork(4))
 		if i%3 == 0 || c.Race {
 			c17Concurrent(c, r.Fork(3))
 		}
@@ -458,6 +459,11 @@ func c17Values(c *mon.Ctx, r *mon.Rand) {
 func c17Conflicts(c *mon.Ctx, r *mon.Rand) {
 	kinds := []string{"counter", "gauge", "timer-summary", "timer-histogram", "histogram", "register-timer-summary", "register-timer-histogram", "register-counter", "register-gauge"}
 	first, second := kinds[r.Intn(len(kinds))], kinds[r.Intn(len(kinds))]
+	if r.Chance(1, 8) {
+		// the name is taken by a collector the application registered itself in the
+		// same registry (not through the reporter)
+		first = "foreign"
+	}
 	panicking := r.Bool()
 	sameKeys := !r.Chance(1, 4)
 	viaScope := r.Bool()
@@ -465,6 +471,7 @@ func c17Conflicts(c *mon.Ctx, r *mon.Rand) {
 	c.Distinct(mon.Hash64(first, second, fmt.Sprint(panicking, sameKeys, viaScope)))
 	desc := map[string]interface{}{"first": first, "second": second, "panicking_callback": panicking, "same_tag_keys": sameKeys, "via_scope": viaScope}
 	reg := prom.NewRegistry()
+	curReg := reg
 	var errs []error
 	type cbPanic struct{ err error }
 	cb := func(e error) {
@@ -486,6 +493,13 @@ func c17Conflicts(c *mon.Ctx, r *mon.Rand) {
 			return tprom.SummaryTimerType
 		}
 		switch kind {
+		case "foreign":
+			keys := make([]string, 0, len(tags))
+			for k := range tags {
+				keys = append(keys, k)
+			}
+			sort.Strings(keys)
+			_ = curReg.Register(prom.NewGaugeVec(prom.GaugeOpts{Name: "x", Help: "somebody else's x"}, keys))
 		case "counter":
 			if sc != nil {
 				sc.Tagged(tags).Counter("x").Inc(1)
@@ -657,7 +671,7 @@ func c17Conflicts(c *mon.Ctx, r *mon.Rand) {
 			c.Violation("gather-error", map[string]interface{}{"err": err.Error(), "case": desc})
 			return
 		}
-		if n0 == 0 && !strings.HasPrefix(first, "register-") {
+		if n0 == 0 && !strings.HasPrefix(first, "register-") && first != "foreign" {
 			found := false
 			for _, f := range fams {
 				for _, m := range f.GetMetric() {
@@ -678,6 +692,7 @@ func c17Conflicts(c *mon.Ctx, r *mon.Rand) {
 		nCfg := len(errs)
 		errs = nil
 		reg2 := prom.NewRegistry()
+		curReg = reg2
 		rep2 := tprom.NewReporter(tprom.Options{Registerer: reg2, DefaultTimerType: defType, OnRegisterError: cb})
 		var sc2 tally.Scope
 		if viaScope {
@@ -1009,4 +1024,70 @@ func c17GaugeEpochs(c *mon.Ctx, r *mon.Rand) {
 	atomic.StoreInt32(&stop, 1)
 	wg.Wait()
 	c.Distinct(mon.Hash64("gauge-epochs", fmt.Sprint(desc), fmt.Sprint(r.U64())))
+}
+
+// c17DirectTwins: the reporter used directly (no scope, no sanitizer) with two
+// tag sets of the same keys whose values contain ',' and '=' such that their
+// joined renderings coincide ({a:"1,b=2", b:"3"} and {a:"1", b:"2,b=3"}): two
+// series of one family, each with its own value - for every kind of metric.
+func c17DirectTwins(c *mon.Ctx, r *mon.Rand) {
+	reg := prom.NewRegistry()
+	var regErrs []string
+	rep := tprom.NewReporter(tprom.Options{Registerer: reg, OnRegisterError: func(e error) { regErrs = append(regErrs, e.Error()) }})
+	x := r.Ident(3)
+	ta := map[string]string{"a": x + ",b=2", "b": "3"}
+	tb := map[string]string{"a": x, "b": "2,b=3"}
+	if r.Bool() {
+		ta, tb = tb, ta
+	}
+	desc := map[string]interface{}{"tags_of_first_series": ta, "tags_of_second_series": tb}
+	ok := c.Guard("prometheus-panic", func() interface{} { return desc }, func() {
+		rep.AllocateCounter("twin_c", mon.CopyTags(ta)).ReportCount(1)
+		rep.AllocateCounter("twin_c", mon.CopyTags(tb)).ReportCount(10)
+		rep.AllocateGauge("twin_g", mon.CopyTags(ta)).ReportGauge(1)
+		rep.AllocateGauge("twin_g", mon.CopyTags(tb)).ReportGauge(10)
+		rep.AllocateTimer("twin_t", mon.CopyTags(ta)).ReportTimer(time.Second)
+		tt := rep.AllocateTimer("twin_t", mon.CopyTags(tb))
+		tt.ReportTimer(time.Second)
+		tt.ReportTimer(time.Second)
+		rep.AllocateHistogram("twin_h", mon.CopyTags(ta), tally.ValueBuckets{1, 2}).ValueBucket(0, 1).ReportSamples(1)
+		rep.AllocateHistogram("twin_h", mon.CopyTags(tb), tally.ValueBuckets{1, 2}).ValueBucket(0, 1).ReportSamples(10)
+	})
+	_ = ok
+	fams, err := reg.Gather()
+	if err != nil {
+		c.Violation("gather-error", map[string]interface{}{"err": err.Error(), "case": desc})
+		return
+	}
+	want := map[string][2]float64{"twin_c": {1, 10}, "twin_g": {1, 10}, "twin_t": {1, 2}, "twin_h": {1, 10}}
+	for _, f := range fams {
+		w, mine := want[f.GetName()]
+		if !mine {
+			continue
+		}
+		delete(want, f.GetName())
+		got := map[string]float64{}
+		for _, m := range f.GetMetric() {
+			l := labelsOf(m)
+			v := 0.0
+			switch {
+			case m.Counter != nil:
+				v = m.Counter.GetValue()
+			case m.Gauge != nil:
+				v = m.Gauge.GetValue()
+			case m.Summary != nil:
+				v = float64(m.Summary.GetSampleCount())
+			case m.Histogram != nil:
+				v = float64(m.Histogram.GetSampleCount())
+			}
+			got[l["a"]+"|"+l["b"]] = v
+		}
+		if len(got) != 2 || got[ta["a"]+"|"+ta["b"]] != w[0] || got[tb["a"]+"|"+tb["b"]] != w[1] {
+			c.Violation("prometheus-series-merged", map[string]interface{}{"why": fmt.Sprintf("family %s: series by (a|b) %v; two series were fed, %v with %v and %v with %v", f.GetName(), got, ta, w[0], tb, w[1]), "case": desc})
+		}
+		c.Event("twin-series-families-checked", 1)
+	}
+	for name := range want {
+		c.Violation("prometheus-series-merged", map[string]interface{}{"why": "family " + name + " is missing from Gather()", "registration_errors": regErrs, "case": desc})
+	}
 }
